@@ -1018,6 +1018,21 @@ impl StoryState {
         Ok(())
     }
 
+    /// Arguments a host may pass into ink: int, float, string, bool or list.
+    pub fn check_arguments(arguments: Option<&Vec<ValueType>>) -> Result<(), StoryError> {
+        for arg in arguments.into_iter().flatten() {
+            if matches!(
+                arg,
+                ValueType::DivertTarget(_) | ValueType::VariablePointer(_)
+            ) {
+                return Err(StoryError::InvalidStoryState("ink arguments when calling EvaluateFunction / ChoosePathStringWithParameters must be \
+                        int, float, string, bool or InkList.".to_owned()));
+            }
+        }
+
+        Ok(())
+    }
+
     pub fn pass_arguments_to_evaluation_stack(
         &mut self,
         arguments: Option<&Vec<ValueType>>,
